@@ -51,6 +51,12 @@ def contents(tier: str) -> List[Tuple[int, str]]:
     out.append((0, "twin-one-leaves"))
     out.append((0, "sender-leaves"))
     out.append((0, "pid-change"))
+    # a connection that never said CONNECT publishes (the manager forwards its messages like any others)
+    out.append((3, "unregistered"))
+    # a frame whose type id is the table's own end marker (-1) among ordinary ones, at the places where a sub-message fills up
+    out.append((63, "minus1"))
+    out.append((64, "minus1"))
+    out.append((2, "minus1"))
     return out
 
 
@@ -65,6 +71,11 @@ def interval_frames(tc, n: int, pattern: str, salt: int) -> List[bytes]:
         return []
     if pattern == "failed":
         return [P.mkframe(FAILT, b"x" * 8, timecode=tc, src_mod_id=21) for k in range(n)]
+    if pattern == "unregistered":
+        return []
+    if pattern == "minus1":
+        fr_ = [P.mkframe(BASE + 400 + k + 70 * salt, b"", timecode=tc, src_mod_id=21) for k in range(n)]
+        return fr_ + [P.mkframe(-1, b"", timecode=tc, src_mod_id=21)] + [P.mkframe(BASE + 600 + k, b"", timecode=tc, src_mod_id=21) for k in range(3)]
     for k in range(n):
         mt = BASE + ((k * 7 + salt * 13) % 997 if n < 900 else k)
         frames.append(P.mkframe(mt, b"", timecode=tc, src_mod_id=21))
@@ -249,8 +260,8 @@ def execute(case) -> Dict[str, Any]:
             listed: List[Tuple[int, int]] = []
             for d in subs:
                 for t, c in zip(d["types"], d["counts"]):
-                    if t == -1:
-                        break
+                    # an unused slot is (-1, 0) (or all zero); a slot (-1, n) with n > 0 is an entry like any other: a client did
+                    # publish type id -1 n times
                     if c == 0:
                         continue
                     listed.append((t, c))
@@ -322,6 +333,11 @@ def execute(case) -> Dict[str, Any]:
             elif pattern in POPULATION:
                 population_event(pattern)
                 observe()
+            elif pattern == "unregistered":
+                U = w.client(f"U{i}", None).connect()
+                w.settle()
+                U.send(b"".join(P.mkframe(BASE + 800 + (k % 2), b"anon", timecode=tc, src_mod_id=0) for k in range(n + 2)))
+                w.settle(limit=10 ** 6)
             elif pattern == "failed":
                 Pp.send(b"".join(frames))
                 w.step(0, nonwritable=["Q"])
